@@ -31,7 +31,7 @@ package db
 // Every Database handed out by OpenFile has a pager, a page cache and a validated header.
 //@ type-invariant db.Database = self.l != nil && self.btreeCache != nil && self.btreeCache.elem != nil && self.header != nil && legal_ps(self.header.PageSize)
 //@ + && (forall q int :: has(self.btreeCache.elem, q) ==> repr(self.btreeCache.elem[q], q, self.header.ChangeCounter))
-//@ + && (!self.dirty ==> self.header.ChangeCounter == cc_now)
+//@ + && (!self.dirty ==> self.header.ChangeCounter == cc_now && hdr_valid)
 
 //@ type-invariant db.Table = self.db != nil
 //@ type-invariant db.Index = self.db != nil
@@ -109,8 +109,9 @@ package db
 // RLock marks the handle dirty: the next access re-reads and re-validates the header.
 //@ func (*db.Database).RLock
 //@   props C06 C08 C15
-//@   modifies db.Database.dirty lk_shared lk_pending cc_now db.filePager.readLock alloc
+//@   modifies db.Database.dirty lk_shared lk_pending cc_now hdr_valid db.filePager.readLock alloc
 //@   requires db != nil
+//@   ghost-exit hdr_valid = false
 //@   ensures [dirty] db.dirty
 //@   ensures [lock] (err == nil ==> lk_shared && !lk_pending) && (err != nil ==> lk_shared == old(lk_shared) && !lk_pending) && (peer_state >= 3 ==> err != nil)
 
@@ -139,10 +140,10 @@ package db
 //@   requires db != nil && db.l != nil && db.btreeCache != nil && db.btreeCache.elem != nil
 //@   requires db.header != nil ==> CACHE_OK(db) && legal_ps(db.header.PageSize)
 //@   requires db.header == nil ==> db.dirty && (forall q int :: !has(db.btreeCache.elem, q))
-//@   requires !db.dirty ==> db.header.ChangeCounter == cc_now
-//@   ghost-entry hdr_valid = false
+//@   requires !db.dirty ==> db.header.ChangeCounter == cc_now && hdr_valid
 //@   ensures [clean] err == nil ==> !db.dirty && db.header != nil && db.header.ChangeCounter == cc_now
-//@   ensures [validated] err == nil && old(db.dirty) ==> hdr_valid
+//@   ensures [validated] err == nil ==> hdr_valid
+//@   ensures [handles] db.l == old(db.l)
 //@   ensures [current] err == nil && old(db.dirty) ==> db.header.ChangeCounter == cc_now && legal_ps(db.header.PageSize)
 //@   ensures [untouched] err == nil && !old(db.dirty) ==> db.header == old(db.header)
 //@   ensures [cache0] err == nil ==> db.btreeCache != nil && db.btreeCache.elem != nil
@@ -157,3 +158,66 @@ package db
 //@   ensures [clean] err == nil ==> !db.dirty && db.header != nil && db.header.ChangeCounter == cc_now
 //@   ensures [current] err == nil ==> r0 != nil && repr(r0, page, db.header.ChangeCounter)
 //@   ensures [cache] err == nil ==> db.btreeCache != nil && db.btreeCache.elem != nil && CACHE_OK(db)
+
+// ---------------------------------------------------------------------------------------
+// sqlite_master and the object lookups.
+
+//@ extern strings.ToUpper
+//@   pure
+//@   ensures result == str_upper(s)
+
+//@ smt strings
+//@ (declare-fun str_upper (Str) Str)
+
+// master: the header is re-validated (resolveDirty) before a cached schema is handed out; otherwise
+// every row of the sqlite_master table (root page 1) is read.
+//@ func (*db.Database).master
+//@   props C08 C12 C05 C01
+//@   uses table_tree
+//@   modifies * -M:S_db_KeyCol hdr_valid
+//@   requires db != nil
+//@   ghost-entry cur_tree = tree_of(1)
+//@   ghost-entry pos = p_lo(1)
+//@   ghost-entry halt = false
+//@   ghost-entry searching = false
+//@   ensures [fresh] err == nil ==> hdr_valid
+//@   ghost-exit cur_tree = old(cur_tree)
+//@   ghost-exit pos = old(pos)
+//@   ghost-exit halt = old(halt)
+//@   ghost-exit searching = old(searching)
+
+// the row consumer: counts the delivery itself, never asks to stop
+//@ func (*db.Database).master$1
+//@   implements functype db.iterCB
+//@   free-requires db != nil && !searching
+//@   ensures [nostop] !done
+//@   ghost-exit pos = old(pos) + 1
+
+//@ func (*db.Database).Table
+//@   props C08 C05 C01
+//@   modifies * -M:S_db_KeyCol hdr_valid
+//@   requires db != nil
+//@   ensures err == nil ==> r0 != nil && r0.db == db && hdr_valid
+
+//@ func (*db.Database).NonRowidTable
+//@   props C08 C05 C01
+//@   modifies * -M:S_db_KeyCol hdr_valid
+//@   requires db != nil
+//@   ensures err == nil ==> r0 != nil && r0.db == db && hdr_valid
+
+//@ func (*db.Database).Index
+//@   props C08 C05 C02
+//@   modifies * -M:S_db_KeyCol hdr_valid
+//@   requires db != nil
+//@   ensures err == nil ==> r0 != nil && r0.db == db && hdr_valid
+
+//@ func (*db.Database).objectNames
+//@   props C08 C05
+//@   modifies * -M:S_db_KeyCol hdr_valid
+//@   requires db != nil
+
+//@ func db.newDatabase
+//@   props C08 C15 C05
+//@   modifies * -M:S_db_KeyCol hdr_valid
+//@   requires l != nil
+//@   ensures [open] r1 == nil ==> r0 != nil && !r0.dirty && r0.header != nil && legal_ps(r0.header.PageSize) && r0.header.ChangeCounter == cc_now && hdr_valid
